@@ -27,7 +27,7 @@ def reach():
 
 class Job:
     def __init__(self, jid, fn, pre=(), budget=60, need_reach=True, exhaust=True,
-                 per_path_timeout=None, note='', bounds=''):
+                 per_path_timeout=None, note='', bounds='', ieee=False):
         self.id = jid
         self.fn = fn
         self.pre = list(pre)
@@ -38,6 +38,8 @@ class Job:
         self.per_path_timeout = per_path_timeout
         self.note = note
         self.bounds = bounds
+        # ieee=True: results of float arithmetic are rounded to binary64 (model M12) instead of staying exact
+        self.ieee = ieee
 
 
 def repo_frame(exc):
